@@ -91,9 +91,16 @@ def calltrace(t):
     body_start = t.index('{')
     head, body = t[:body_start], t[body_start:]
     # parameters of object/value type (by reference or value) -> record type
+    ptr_params = set()
     for ty in OBJ_TYPES + VAL_TYPES:
         for m in re.finditer(r'\b(?:const\s+)?' + ty + r'\s*[&*]?\s*(\w+)\s*(?=[,)])', head):
             types[m.group(1)] = ty
+    for ty in OBJ_TYPES:
+        # object passed by (non-const) reference -> pointer parameter
+        def pp(m):
+            ptr_params.add(m.group(1))
+            return ty + '* ' + m.group(1)
+        head = re.sub(r'\b' + ty + r'\s*&\s*(\w+)\b(?=\s*[,)])', pp, head)
     # declarations
     def decl(m):
         nonlocal n
@@ -137,11 +144,22 @@ def calltrace(t):
         V = r'(?<![\w.>&])' + name
         body, k = re.subn(V + r'\s*\.\s*size\s*\(\s*\)', name + '.size', body)
         n += k
+        body, k = re.subn(V + r'\s*\.\s*empty\s*\(\s*\)', '(' + name + '.size == 0)', body)
+        n += k
+        if name in ptr_params:
+            body, k = re.subn(V + r'\s*\.\s*(\w+)\s*\(\s*\)', ty + r'_\1(' + name + ')', body)
+            n += k
+            body, k = re.subn(V + r'\s*\.\s*(\w+)\s*\(', ty + r'_\1(' + name + ', ', body)
+            n += k
+            continue
         if ty in OBJ_TYPES or ty in VAL_TYPES:
             body, k = re.subn(V + r'\s*\.\s*(\w+)\s*\(\s*\)', ty + r'_\1(&' + name + ')', body)
             n += k
             body, k = re.subn(V + r'\s*\.\s*(\w+)\s*\(', ty + r'_\1(&' + name + ', ', body)
             n += k
+    # explicit template arguments on calls
+    body, k = re.subn(r'\b(\w+)\s*<\s*[\w:]+(?:\s*,\s*[\w:]+)*\s*>\s*\(', r'\1(', body)
+    n += k
     # by-reference output arguments of the callees (from their C++ declarations)
     for fn, poss in REF_ARGS.items():
         out, pos = '', 0
@@ -156,14 +174,14 @@ def calltrace(t):
                 i += 1
             args = split_args(body[a0:i - 1])
             for k in poss:
-                if k < len(args) and not args[k].strip().startswith('&'):
+                if k < len(args) and not args[k].strip().startswith('&') and args[k].strip() not in ptr_params:
                     args[k] = ' &(' + args[k].strip() + ')'
                     n += 1
             out += body[pos:a0] + ','.join(args) + ')'
             pos = i
         body = out + body[pos:]
-    # explicit template arguments on calls
-    body, k = re.subn(r'\b(\w+)\s*<\s*[\w:]+(?:\s*,\s*[\w:]+)*\s*>\s*\(', r'\1(', body)
+    # default-constructed container temporaries
+    body, k = re.subn(r'\b(?:' + '|'.join(VAL_TYPES) + r')\s*\(\s*\)', '((VTok){0, 0})', body)
     n += k
     for e in ENUM_CASTS:
         body, k = re.subn(r'(?<![\w(])' + e + r'\s*\(', '(' + e + ')(', body)
